@@ -15,6 +15,6 @@ class Unordered(UnorderedReferences, InducedSet, References, SameID, Group):
   }
   NAME_FIELD = "pid"
   REFERENCE_FIELDS = ["items"]
-  DEPENDENT_LINES = ["sets"]
+  DEPENDENT_LINES = ["sets", "paths"]
 
 Unordered._apply_definitions()
